@@ -1,0 +1,28 @@
+//go:build verif
+
+package verifbridge
+
+import (
+	icrypto "github.com/nspcc-dev/neofs-node/internal/crypto"
+	isessions "github.com/nspcc-dev/neofs-node/internal/sessions"
+	"github.com/nspcc-dev/neofs-sdk-go/object"
+	sessionv2 "github.com/nspcc-dev/neofs-sdk-go/session/v2"
+)
+
+// ObjectSessionsCache re-exports [isessions.ObjectSessionsCache].
+type ObjectSessionsCache = isessions.ObjectSessionsCache
+
+// NewObjectSessionsCache re-exports [isessions.NewObjectSessionsCache].
+func NewObjectSessionsCache(size int) *ObjectSessionsCache {
+	return isessions.NewObjectSessionsCache(size)
+}
+
+// HistoricN3ScriptRunner re-exports [icrypto.HistoricN3ScriptRunner].
+type HistoricN3ScriptRunner = icrypto.HistoricN3ScriptRunner
+
+// AuthenticateObject re-exports [icrypto.AuthenticateObject]: the object
+// format validator's authentication step, which shares the sessions cache
+// with the object ACL service.
+func AuthenticateObject(obj object.Object, fsChain HistoricN3ScriptRunner, cache *ObjectSessionsCache, resolver sessionv2.NNSResolver) error {
+	return icrypto.AuthenticateObject(obj, fsChain, cache, resolver)
+}
